@@ -23,6 +23,8 @@ def plan(prop, tier):
                     extra=["C04 is decided for the three families that have a gate (daily, billing, hourly); the CalTRACK hourly wrapper has none",
                            "any exception class is accepted for unfitted / foreign type / other timezone / bad aggregation; only the gate's class is fixed"])
     if prop == "C01":
+        if q:
+            fam = fam + [("hourly", "solar_tf"), ("daily", "custommaps")]
         return dict(scen=[("store", fam)], per=(5 if q else 40),
                     rule="histories fit/sweep/save/(restart)/load/sweep/resave per family and profile; distinct = distinct (abstract history, family, profile)",
                     extra=["document equality is JSON-value equality", "the formula clause of C01 is decided by the DailyCurve module (C11/C12 checks), not here"])
